@@ -185,7 +185,7 @@ func Check09(c Case09, r *core.Rec) {
 // ---- generator --------------------------------------------------------------------------------
 
 var c09Pools = [][]string{
-	/* ldh      */ {"a", "b", "c", "x", "y", "z", "n", "0", "1", "9", "-", "ab", "example", "com", "www", "test"},
+	/* ldh      */ {"a", "b", "c", "x", "y", "z", "n", "0", "1", "9", "-", "ab", "example", "com", "www", "test", "ab--c", "r4---sn-a5u", "xy--", "a1--b_", "--", "ab--"},
 	/* upper    */ {"A", "B", "X", "N", "Z", "COM", "Example", "WWW"},
 	/* non-ldh  */ {"_", "!", "$", "&", "'", "(", ")", "*", "+", ",", ";", "=", "~", "\"", "`", "{", "}"},
 	/* forbid   */ {" ", "<", ">", "^", "|", "\x7f", "\x00", "\x01", "\x1f", "\x0b"},
@@ -199,7 +199,7 @@ var c09Pools = [][]string{
 }
 var c09ACE = []string{"xn--nxasmq6b", "XN--NXASMQ6B", "xn--ls8h", "xn--mnchen-3ya", "xn--4ca", "xn--a", "xn--", "xn--0", "xn--fa-hia", "xn--zca", "Xn--Mnchen-3yA", "xn--1ch", "xn--ab-miv", "xn--a-", "xn--ASCII-", "xn--u-ccb"}
 var c09Dots = []string{".", ".", ".", ".", "\u3002", "\uff0e", "\uff61"}
-var c09Whole = []string{"localhost.", "LOCALHOST.", "localhost..", ".localhost", "localhost.localdomain", "Localhost.", "localhost", "LOCALHOST", "LocalHost", "example.com", "EXAMPLE.COM", "faß.de", "日本語.jp", "a.b.c.d", "1.2.3.4", "0x7F.1", "a..b", "a.", ".a", "xn--nxasmq6b.com", "Ｇｏ.ｃｏｍ", "l\u00adocalhost", "ｌｏｃａｌｈｏｓｔ"}
+var c09Whole = []string{"ab--c_d.example", "r4---sn-a5u.my_cdn.net", "xy--.a!b", "localhost.", "LOCALHOST.", "localhost..", ".localhost", "localhost.localdomain", "Localhost.", "localhost", "LOCALHOST", "LocalHost", "example.com", "EXAMPLE.COM", "faß.de", "日本語.jp", "a.b.c.d", "1.2.3.4", "0x7F.1", "a..b", "a.", ".a", "xn--nxasmq6b.com", "Ｇｏ.ｃｏｍ", "l\u00adocalhost", "ｌｏｃａｌｈｏｓｔ"}
 
 func Gen09(t *rapid.T) Case09 {
 	var c Case09
